@@ -293,6 +293,24 @@ var c01Templates = []tmpl{
 	{"two-defers-last-registered-raises", `f := func() { defer emit(1); defer emit(2); defer func() { error("boom") }(); emit(0) }; try(f, func(e) { emit(9) }); a`, func(a, b, c, n int64) tOut {
 		return outEmit(rvInt(a), 0, 2, 1, 9)
 	}},
+	{"template-string-with-empty-braces", `x := 'p{}q'; len(x) + a`, func(a, b, c, n int64) tOut { return outInt(2 + a) }},
+	{"template-string-empty-braces-between-expressions", `x := '{a}{}{b}'; y := [x, c]; y[1] + len(y)`, func(a, b, c, n int64) tOut { return outInt(c + 2) }},
+	{"break-after-a-finished-switch-in-a-range-loop", `s := 0; for _, v := range [1, 2, 3, 4, 5] { switch v { case 2: s += 100 }; if v == n + 3 { break }; s += v }; s + a`, func(a, b, c, n int64) tOut {
+		// n is 0..3: break at v == n+3 (3, 4, 5) or never (6)
+		sum := int64(0)
+		for v := int64(1); v <= 5; v++ {
+			if v == 2 {
+				sum += 100
+			}
+			if v == n+3 {
+				break
+			}
+			sum += v
+		}
+		return outInt(sum + a)
+	}},
+	{"continue-after-a-finished-switch-in-a-three-clause-loop", `s := 0; for i := 0; i < 4; i++ { switch i % 3 { case 0: s += 1 default: s += 2 }; if i % 2 == 0 { continue }; s += 10 }; [7, s][1] + a`, func(a, b, c, n int64) tOut { return outInt(1 + 2 + 10 + 2 + 1 + 10 + a) }},
+	{"compound-index-assignment-evaluates-the-index-once", `k := 0; f := func() { k += 1; return 0 }; l := [a]; l[f()] += b; l[0] + k * 1000`, func(a, b, c, n int64) tOut { return outInt(a + b + 1000) }},
 	{"error-raised", `error("boom"); a`, func(a, b, c, n int64) tOut { return outErr() }},
 	{"division-by-zero-error", `a / b`, func(a, b, c, n int64) tOut {
 		if b == 0 {
